@@ -12,6 +12,7 @@ import (
 	"time"
 
 	"github.com/anishathalye/porcupine"
+	"github.com/go-jose/go-jose/v3"
 	"github.com/ory/fosite"
 	"github.com/ory/fosite/storage"
 	"golang.org/x/crypto/bcrypt"
@@ -509,7 +510,17 @@ func TestC19_RaceStress(t *testing.T) {
 		// default-constructed configuration: only what has no default
 		w = h.NewWorld(h.Spec{JWTAccess: jwtAccess, Minimal: true})
 	} else {
-		w = h.NewWorld(h.Spec{JWTAccess: jwtAccess, RefreshScopes: []string{}})
+		// fully populated configuration; client keys published at a jwks_uri are fetched and cached by the library's
+		// own fetcher (in-process transport)
+		w = h.NewWorld(h.Spec{JWTAccess: jwtAccess, RefreshScopes: []string{}, Mutate: func(c *fosite.Config) {
+			c.JWKSFetcherStrategy = fosite.NewDefaultJWKSFetcherStrategy(fosite.JWKSFetcherWithHTTPClient(c.HTTPClient))
+		}})
+		jset := &jose.JSONWebKeySet{Keys: []jose.JSONWebKey{h.PublicJWK(h.RSAKey(1), "kid-1", "RS256")}}
+		doc, _ := jsonMarshal(jset)
+		w.Docs["https://rp.example/jwks/J"] = string(doc)
+		jc := &fosite.DefaultOpenIDConnectClient{DefaultClient: &fosite.DefaultClient{ID: "J", GrantTypes: []string{"client_credentials"}, Scopes: []string{"a"}},
+			TokenEndpointAuthMethod: "private_key_jwt", TokenEndpointAuthSigningAlgorithm: "RS256", JSONWebKeysURI: "https://rp.example/jwks/J"}
+		w.AddClient(jc, "")
 	}
 	hash := func(s string) []byte {
 		if minimal {
@@ -585,6 +596,19 @@ func TestC19_RaceStress(t *testing.T) {
 					}
 					start.Done()
 					fin.Wait()
+				}
+				if !minimal && i%23 == 22 {
+					// private_key_jwt with keys from the jwks_uri: known kid (served from the cache) or an unknown kid,
+					// which makes the library refresh the cached key set while other requests are reading it
+					kid, key := "kid-1", h.RSAKey(1)
+					if i%2 == 0 {
+						kid, key = fmt.Sprintf("kid-rotated-%d", i), h.RSAKey(2)
+					}
+					now := h.Now()
+					a := h.MustSignJWT(key, "RS256", kid, map[string]interface{}{"iss": "J", "sub": "J", "aud": h.TokenURL, "jti": fmt.Sprintf("stress-%d-%d", g, i), "exp": now.Add(300e9).Unix(), "iat": now.Unix()})
+					w.Token(url.Values{"grant_type": {"client_credentials"}, "scope": {"a"}, "client_assertion_type": {assertionType}, "client_assertion": {a}}, h.Auth{}, h.TokenOpts{})
+					atomic.AddInt64(&nOps, 1)
+					return
 				}
 				switch i % 19 {
 				case 14:
